@@ -60,6 +60,9 @@ view == <<cfg, st, cnt, consumed, out, bits, count, parent, pc, idx, ans, pend, 
 
 N == cfg.n
 Ch == 0..(N - 1)
+\* optional flags (absent = FALSE): trace validation mode, the caller may present the previous waker again
+TraceMode == "trace" \in DOMAIN cfg /\ cfg.trace
+Reuse == "reuse" \in DOMAIN cfg /\ cfg.reuse
 Std == cfg.mode = "std"
 Try == cfg.kind = "try_join"
 Arr == cfg.variant = "arr"
@@ -145,6 +148,18 @@ Poll ==
   /\ Emit(<<EvPoll(gen + 1)>>)
   /\ UNCHANGED <<cfg, st, cnt, consumed, out, bits, count, parent, idx, ans, pend, polls, handed, firedL,
                  final, nfire, nstale, ninfire, seen, conc>>
+
+\* the caller presents the same waker as in its previous poll
+PollReuse ==
+  /\ pc = "idle" /\ ~final /\ started /\ Reuse
+  /\ LET spurious == ~wokenL IN
+       /\ spurious => nspur < cfg.maxSpur
+       /\ nspur' = IF spurious THEN nspur + 1 ELSE nspur
+  /\ wokenL' = FALSE /\ quiesced' = FALSE
+  /\ pc' = "begin"
+  /\ Emit(<<EvPoll(gen)>>)
+  /\ UNCHANGED <<cfg, st, cnt, consumed, out, bits, count, parent, idx, ans, pend, polls, handed, firedL,
+                 gen, started, final, nfire, nstale, ninfire, seen, conc>>
 
 \* Ret: end of the poll
 RetFields(r, ok, v, o) ==
@@ -347,8 +362,12 @@ Drop ==
 (* still make progress, the latest waker has not been invoked                              *)
 Owed == {c \in Ch : ans[c] = "pending" /\ ~firedL[c] /\ c \notin NeverSet}
 Quiesce ==
-  /\ pc = "idle" /\ started /\ ~wokenL /\ ~quiesced /\ ~final
-  /\ Owed = {}
+  /\ IF TraceMode
+       THEN \* the harness' `settle` reports quiescence whenever its loop ends: also after the final result / the drop
+            /\ pc \in {"idle", "dropped"}
+            /\ (pc = "dropped" \/ final \/ (started /\ ~wokenL /\ Owed = {}))
+       ELSE /\ pc = "idle" /\ started /\ ~wokenL /\ ~quiesced /\ ~final
+            /\ Owed = {}
   /\ quiesced' = TRUE
   /\ Emit(<<Ev("quiesce")>>)
   /\ UNCHANGED <<cfg, st, cnt, consumed, out, bits, count, parent, pc, idx, ans, pend, polls, handed, firedL,
@@ -362,8 +381,8 @@ Finish ==
                  gen, wokenL, started, final, nfire, nstale, nspur, ninfire, seen, conc, quiesced>>
 
 Next ==
-  \/ Poll \/ PollBegin \/ ScanStep \/ ChildAnswer \/ ChildPanic \/ Drop \/ Quiesce \/ Finish
-  \/ \E c \in Ch : \E k \in 0..(cfg.maxPend + cfg.maxSpur + 2) : Wake(c, k) \/ InFire(c, k) \/ ThreadWake(c, k)
+  \/ Poll \/ PollReuse \/ PollBegin \/ ScanStep \/ ChildAnswer \/ ChildPanic \/ Drop \/ Quiesce \/ Finish
+  \/ \E c \in Ch : \E k \in 0..(polls[c] - 1) : Wake(c, k) \/ InFire(c, k) \/ ThreadWake(c, k)
 
 \* delivery of an owed wake-up (used for fairness only): does not consume budget
 OwedWake(c) ==
